@@ -19,7 +19,7 @@ PROP = "C14"
 # (module, weight): workloads of the other checks, executed under C14's exception classifier
 BLEND = [("c01", 3), ("c02", 3), ("c03", 2), ("c04", 4), ("c08", 1), ("c09", 2), ("c12", 2), ("c15", 1),
          ("c19", 1)]
-OPTIONAL_BLEND = [("c06", 2), ("c07", 2), ("c10", 2), ("c11", 2), ("c16", 2), ("c17", 2), ("c18", 2)]
+OPTIONAL_BLEND = [("c06", 2), ("c07", 2), ("c10", 2), ("c11", 2), ("c16", 2), ("c17", 2), ("c18", 2), ("c13", 1)]
 
 _rec = None
 _mods: Dict[str, Any] = {}
